@@ -21,7 +21,7 @@
     "all centre hydrogens explicit" branch (default mode: _strip_explicit_h, hydrogen expansion, _explicit_h). *)
 From Coq Require Import List NArith ZArith Bool Permutation.
 From SK Require Import lib.Mono model.C06_Model lib.C06_Spec model.C11_Model.
-From SK Require Import lib.Tok lib.LGraph model.C03_Model model.C04_Model model.C04_Reactor proof.C04_Any proof.C04_Check proof.C04_Proof proof.C04_DefaultProof proof.C04_Engine proof.C04_Prune proof.C04_Examples proof.C04_Object proof.C04_Chain proof.C04_Glue proof.C04_Template proof.C04_Fold proof.C04_Default proof.C04_Explicit proof.C04_DefaultEnd proof.C04_DefaultChain proof.C04_CompBt proof.C04_ObjectExamples.
+From SK Require Import lib.Tok lib.LGraph model.C03_Model model.C04_Model model.C04_Reactor proof.C04_Any proof.C04_Check proof.C04_Proof proof.C04_DefaultProof proof.C04_Engine proof.C04_Prune proof.C04_Examples proof.C04_Object proof.C04_Chain proof.C04_Glue proof.C04_Template proof.C04_Fold proof.C04_Default proof.C04_Explicit proof.C04_DefaultEnd proof.C04_DefaultChain proof.C04_CompBt proof.C03_Spec proof.C04_Total proof.C04_TotalDefault proof.C04_TotalEnd proof.C04_TotalExamples proof.C04_ObjectExamples.
 Import ListNotations.
 Local Open Scope Z_scope.
 
@@ -462,7 +462,6 @@ Theorem C04_own_comp_implicit : forall (enum : list N -> list N -> list C06_Mode
   pair_wfb G H = true -> no_explicit_H G = true ->
   (core = true -> centre_carries (its_construct G H) = true) ->
   forallb (fun p : N * mnode => 0 <=? m_hc (snd p)) (gnodes (dec_side iG C03_Model.eG (template core invert G H))) = true ->
-  gwf (tr_host (if invert then H else G)) -> gwf (tr_pat (dec_side iG C03_Model.eG (template core invert G H))) ->
   oracle_ok enum (tr_host (if invert then H else G)) (tr_pat (dec_side iG C03_Model.eG (template core invert G H))) ->
   (0 <? length (comps (tr_pat (dec_side iG C03_Model.eG (template core invert G H)))))%nat && (length (comps (tr_pat (dec_side iG C03_Model.eG (template core invert G H)))) <? length (comps (tr_host (if invert then H else G))))%nat = false ->
   ((length (comps (tr_host (if invert then H else G))) <? length (comps (tr_pat (dec_side iG C03_Model.eG (template core invert G H)))))%nat = true \/ id_separatingb (tr_host (if invert then H else G)) (tr_pat (dec_side iG C03_Model.eG (template core invert G H))) = true) ->
@@ -478,7 +477,6 @@ Theorem C04_own_bt_implicit : forall (enum : list N -> list N -> list C06_Model.
   pair_wfb G H = true -> no_explicit_H G = true ->
   (core = true -> centre_carries (its_construct G H) = true) ->
   forallb (fun p : N * mnode => 0 <=? m_hc (snd p)) (gnodes (dec_side iG C03_Model.eG (template core invert G H))) = true ->
-  gwf (tr_host (if invert then H else G)) -> gwf (tr_pat (dec_side iG C03_Model.eG (template core invert G H))) ->
   oracle_ok enum (tr_host (if invert then H else G)) (tr_pat (dec_side iG C03_Model.eG (template core invert G H))) ->
   ((0 <? length (comps (tr_pat (dec_side iG C03_Model.eG (template core invert G H)))))%nat && (length (comps (tr_pat (dec_side iG C03_Model.eG (template core invert G H)))) <? length (comps (tr_host (if invert then H else G))))%nat = true \/ (length (comps (tr_host (if invert then H else G))) <? length (comps (tr_pat (dec_side iG C03_Model.eG (template core invert G H)))))%nat = true \/ id_separatingb (tr_host (if invert then H else G)) (tr_pat (dec_side iG C03_Model.eG (template core invert G H))) = true) ->
   exists T0 : N, forall (T : N) (o : ropts), (T0 <= T)%N ->
@@ -495,7 +493,7 @@ Theorem C04_own_comp_default : forall (enum : list N -> list N -> list C06_Model
   (core = true -> centre_carries (its_construct G H) = true) ->
   forall (rc : its) (l r : molg), rule_of core invert G H = Some (rc, l, r) ->
   forallb (fun p : N * mnode => 0 <=? m_hc (snd p)) (gnodes l) = true ->
-  gwf (tr_host (substrate invert G H)) -> gwf (tr_pat l) -> oracle_ok enum (tr_host (substrate invert G H)) (tr_pat l) ->
+  oracle_ok enum (tr_host (substrate invert G H)) (tr_pat l) ->
   (0 <? length (comps (tr_pat l)))%nat && (length (comps (tr_pat l)) <? length (comps (tr_host (substrate invert G H))))%nat = false ->
   ((length (comps (tr_host (substrate invert G H))) <? length (comps (tr_pat l)))%nat = true \/ id_separatingb (tr_host (substrate invert G H)) (tr_pat l) = true) ->
   exists T0 : N, forall (T : N) (o : ropts), (T0 <= T)%N ->
@@ -512,7 +510,7 @@ Theorem C04_own_bt_default : forall (enum : list N -> list N -> list C06_Model.m
   (core = true -> centre_carries (its_construct G H) = true) ->
   forall (rc : its) (l r : molg), rule_of core invert G H = Some (rc, l, r) ->
   forallb (fun p : N * mnode => 0 <=? m_hc (snd p)) (gnodes l) = true ->
-  gwf (tr_host (substrate invert G H)) -> gwf (tr_pat l) -> oracle_ok enum (tr_host (substrate invert G H)) (tr_pat l) ->
+  oracle_ok enum (tr_host (substrate invert G H)) (tr_pat l) ->
   ((0 <? length (comps (tr_pat l)))%nat && (length (comps (tr_pat l)) <? length (comps (tr_host (substrate invert G H))))%nat = true \/ (length (comps (tr_host (substrate invert G H))) <? length (comps (tr_pat l)))%nat = true \/ id_separatingb (tr_host (substrate invert G H)) (tr_pat l) = true) ->
   exists T0 : N, forall (T : N) (o : ropts), (T0 <= T)%N ->
     o_strategy o = SMember 2%N -> o_thr o = Some T -> o_pref o = false ->
@@ -537,3 +535,39 @@ Theorem C04_smarts_contains : forall (engine : sarg -> option N -> bool -> C06_M
     In (if o_invert o then p ++ arrow ++ r else r ++ arrow ++ p) ss.
 Proof. exact smarts_contains. Qed.
 Print Assumptions C04_smarts_contains.
+
+(** * when does _explicit_h NOT raise?
+
+    A criterion on ANY ITS [T]: suppose the hydrogen change of every atom ([dl_of T n] = reactant-side minus product-side
+    count) is the sum over a list [Hs] of "transfers" of a contribution [w h n], every atom a transfer touches carries one
+    pair id of that transfer in its h_pairs, and a transfer gives away no more than it takes (its contributions over any
+    duplicate-free set of atoms that contains all it touches sum to <= 0).  Then every connected component of the pairing graph
+    of _explicit_h is balanced and _explicit_h returns (no StopIteration).  Proof: [components] (C03_Model) are duplicate-free,
+    pairwise disjoint and every h_pairs group lies inside one of them; [pair_to_nodes] lists every atom under every id it
+    carries (proof/C04_Total.v; C03 has the converse directions); then C03_explicitH_crash_iff. *)
+Theorem C04_explicit_h_total_criterion : forall (T : its) (X : Type) (Hs : list X) (w : X -> N -> Z),
+  (forall n : N, dl_of T n = sumX (fun h : X => w h n) Hs) ->
+  (forall h : X, In h Hs ->
+     exists pid : N, forall n : N, w h n <> 0 -> exists A : inode, In (n, A) (gnodes T) /\ In pid (hp_of A)) ->
+  (forall (h : X) (c : list N), In h Hs -> NoDup c -> (forall n : N, w h n <> 0 -> In n c) -> sumF (w h) c <= 0) ->
+  explicit_h T <> None.
+Proof. exact explicit_h_total. Qed.
+Print Assumptions C04_explicit_h_total_criterion.
+
+(** ... and with it the default mode reaches the end of its_list with NO premise about _explicit_h: for the reaction's own
+    templates the one premise of C04_identity_default_end is replaced by the static boolean [own_valence_okb] (evaluated by the
+    correspondence on every case and recomputed by the harness): every hydrogen atom of the template has at most as many bonds
+    to rule atoms on the reactant side as on the product side -- for a hydrogen with one bond before and one bond after, 1 <= 1.
+    The transfers are the stripped hydrogens; that all atoms bonded to one of them share its pair id is C03's
+    completeness of the pair ids (synrule_default_pairs_complete, read-only); the hydrogen counts of the prepared rule are
+    bond counts (synrule_default_pointwise).  FULL for the identity match; the other kept mappings of the reactor
+    (C04_in_results_engine_default_partial) keep the premise [crashed = false]. *)
+Theorem C04_identity_default_end_total : forall (core invert : bool) (G H : hostg),
+  pair_wfb G H = true -> mode_E G H = true ->
+  default_okb (if invert then H else G) (if invert then G else H) (template core invert G H) = true ->
+  (core = true -> centre_carries (its_construct G H) = true) ->
+  own_valence_okb core invert G H = true ->
+  exists T' : its, regenerate core invert G H = Some T' /\
+    regen_folded T' (if invert then H else G) (if invert then G else H) = true.
+Proof. exact default_identity_end_total. Qed.
+Print Assumptions C04_identity_default_end_total.
